@@ -106,7 +106,7 @@ def tlc_generate(module, cfg, num, depth, seed, steps, extra_env=None, cfg_subst
             cfg = "sub_" + cfg
             with open(os.path.join(wd, cfg), "w") as fh:
                 fh.write(c)
-        env = dict(VERIF_GEN_DIR=gen, VERIF_GEN_STEPS=str(steps))
+        env = dict(VERIF_GEN_DIR=gen, VERIF_GEN_STEPS=str(steps), VERIF_GEN_BIAS="none")
         if extra_env:
             env.update(extra_env)
         rc, out = tlc(module, cfg, wd, workers=1, env=env, timeout=900,
